@@ -914,6 +914,8 @@ class BinaryDataEncoding(DataEncoding):
         # Lengths that come from a DiscreteLookup or a calibrated parameter are floats
         if not float(len_bits).is_integer():
             raise ValueError(f"Binary field length must be an integer number of bits but got {len_bits}.")
+        if len_bits < 0:
+            raise ValueError(f"Binary field length must not be negative but got {len_bits}.")
         return int(len_bits)
 
     def parse_value(self, packet: packets.CCSDSPacket) -> common.BinaryParameter:
